@@ -1,5 +1,7 @@
 """C06 - structured concurrency: spawned tasks never outlive their scope."""
-from harness.legs import cfg_text, leg_m, leg_mutant, leg_r
+import random
+
+from harness.legs import cfg_text, leg_m, leg_mutant, leg_r, leg_t_gen
 from props.scopetasks_common import ScopeTasksDriver, replay  # noqa: F401
 
 SPEC = "ScopeTasks"
@@ -40,6 +42,12 @@ def run(rep, work, tier, seed):
                    cfg_text(dict(small, Bug="spawn_detached"), spec="Spec", invariants=INVS, properties=PROPS),
                    ["CancelCascades", "NoOrphans", "SpawnTarget", "DetachedUntouched", "NoEscape"])
     leg_r(rep, work, SPEC, f"conf_{tier}", cfg_text(conf, invariants=INVS), ScopeTasksDriver)
+    # leg T: random programs of 5 tasks (~30 operations) recorded from the real library, validated by a trace module
+    # generated from ScopeTasks.tla (existential acceptance: the spec is nondeterministic where the stdlib is)
+    from props.scopetasks_common import TRACE_KW, gen_trace
+    rnd = random.Random(seed * 29 + 1)
+    traces = [gen_trace(rnd) for _ in range(150 if tier == "quick" else 2000)]
+    leg_t_gen(rep, work, SPEC, f"trace_{tier}", traces, **TRACE_KW)
     rep.assumptions += [
         "spawned coroutines are gated doubles that obey cancellation at once (a task that swallows cancellation keeps "
         "its scope waiting by design); 'blocking until released' = parked at its gate",
